@@ -112,3 +112,135 @@ SPECS["C11"] = {
     "trusted_base": ["pyvc VC generator and its built-in models", "z3 5.1.0 / cvc5 1.0.3"],
     "assumptions": ["isolation lemma (paper): results are a function of own fields and immutable content; own fields are written only by own methods (proved frame)"],
 }
+
+
+_E2E_NOTE = ("end-to-end monitors run the real ls/export on images from independent writers in /verif/bounded and evaluate the "
+             "property statement itself; they are bounded stand-ins for the construct glue and are never counted as proved")
+
+SPECS["C14"] = {
+    "level": "other",
+    "level_text": "BOUNDED: the property statement is evaluated end-to-end on the real tool for a 3-file AKAI volume with each entry damaged (type byte: every value in the thorough tier; every other byte of the entry: 8/14 values; random multi-byte damage). No contract within reach expresses the AKAI table loop (it is a construct Subconstruct driving parse_stream); the loop's alignment invariant is argued in DESIGN.md only",
+    "level_note": "bounded stand-in only for the AKAI half; the Roland half (absolute Pointer addressing per index) is not exercised by a damage sweep yet; trusted: the independent writer",
+    "explanation": _E2E_NOTE,
+    "contracts": [],
+    "bounded": [("contracts.e2e_more", "e2e:C14")],
+    "trusted_base": ["independent AKAI writer /verif/bounded/akai_writer.py"],
+    "not_covered": ["Roland directory / parameter record damage"],
+    "assumptions": ["K1 (known finding): damage that turns a name into a sibling's name is excluded through known_findings.json"],
+}
+
+
+SPECS["C16"] = {
+    "level": "other",
+    "level_text": "BOUNDED end-to-end: every sequence of 2 (quick) / 3 (thorough) operations from {ls at valid and invalid paths, export} on one opened image object gives, operation by operation, the same output and the same exported bytes as a fresh object, for AKAI, CDDA and Roland images, and the image file is unchanged. The contract-level ingredients that are proved elsewhere: view reads are cursor-independent (C11), every CDDA window starts rewound (C03 post-condition), pass-through concatenation from a rewound view (C12 lemma). The frame (write-set) analysis and cache purity obligations of DESIGN C16 are not mechanised yet",
+    "level_note": "bounded stand-in; composition argument on paper (DESIGN.md C16)",
+    "explanation": _E2E_NOTE,
+    "contracts": [],
+    "bounded": [("contracts.e2e_more", "e2e:C16")],
+    "trusted_base": ["independent writers under /verif/bounded"],
+    "not_covered": ["write-set scan of all functions reachable from ls/export; construct context mutation (wrap_child_realization)"],
+    "assumptions": [],
+}
+
+SPECS["C20"] = {
+    "level": "other",
+    "level_text": "BOUNDED end-to-end: images whose header fields each carry their own random in-range value are written by the independent writers; every value the statement names is compared with the `key: value` lines ls prints (AKAI samples incl. rate 0 -> 44100 and active loops; Roland samples: mode, frequency, five loop points coarse+fine; CDDA tracks). Proved at contract level: MSF -> frame count and the CDDA sample-frame count (C03 contracts), note byte <-> name (C18). The symbolic parse of the header structs against layout tables (DESIGN C20) is not built yet",
+    "level_note": "bounded stand-in; AKAI program / keygroup values are not yet covered by the writer",
+    "explanation": _E2E_NOTE,
+    "contracts": ["smpl_extract.cuesheet:CueSheetIndex.get_total_audio_frames", "smpl_extract.cdda.image:CompactDiskAudioImageAdapter.from_bin_cue",
+                  "lemma:note_akai_byte_roundtrip"],
+    "bounded": [("contracts.e2e_more", "e2e:C20")],
+    "trusted_base": ["independent writers under /verif/bounded"],
+    "not_covered": ["AKAI program header, keygroups and velocity zones", "the 300-line cap"],
+    "assumptions": [],
+}
+
+SPECS["C09"] = {
+    "level": "proof",
+    "level_text": "proved: the MODE1/2352 user-data view and the offset window used for MDX refine the read-only-file contract over exactly the wrapped bytes (C08 contracts for MdfStream / StreamOffset: body k of raw sector k at 2352k+16, any seek/read history). BOUNDED end-to-end: generated AKAI and Roland images delivered raw, as 2352-byte sectors, in an MDX wrapper and through cue sheets over both are recognised as the same kind, list identically at every level and export byte-identical files. Detection predicates over the live header structs and the interface-only use of streams (parametricity) are argued in DESIGN.md, not mechanised",
+    "level_note": "trusted: pyvc engine, z3, ROF contract; detection cascade and cue indirection covered by the bounded monitor only",
+    "contracts": ["smpl_extract.alcohol.mdf:MdfStream._read", "smpl_extract.alcohol.mdf:MdfStream.read", "smpl_extract.alcohol.mdf:MdfStream.seek",
+                  "smpl_extract.alcohol.mdf:MdfStream.tell", "smpl_extract.alcohol.mdf:MdfStream.readall",
+                  "smpl_extract.util.stream:StreamOffset.read", "smpl_extract.util.stream:StreamOffset.seek", "smpl_extract.util.stream:StreamOffset.tell"],
+    "bounded": [("contracts.e2e_more", "e2e:C09")],
+    "trusted_base": ["pyvc VC generator", "z3 5.1.0 / cvc5 1.0.3", "independent writers under /verif/bounded"],
+    "not_covered": ["is_mdf_image / is_mdx_image / is_roland_s7xx_image as VCs over the live construct declarations", "MdfStream.__init__ / MdxStream size computation"],
+    "assumptions": [],
+}
+
+SPECS["C15"] = {
+    "level": "proof",
+    "level_text": "proved for the views over a TRUNCATED base file (content = full[:cut], no assumption that addresses lie inside it): a plain/offset window returns a prefix of the exact slice, short exactly at the cut and complete when everything lies before it; a sector-chained / raw-sector view returns the exact bytes or raises SectorReadError - never wrong bytes, and a file whose sectors all lie before the cut never fails; the pass-through transcoder turns that error into the end of the data BEFORE yielding the partial block. BOUNDED end-to-end: two AKAI images cut at every sector boundary, around header ends and at random offsets: every reported file is a well-formed WAV and a prefix of the complete export, files lying before the cut are complete",
+    "level_note": "trusted: pyvc engine, z3, ROF contract; construct's behaviour on a failing stream (compiled parsers let the stream's exception through) is exercised by the bounded monitor, not modelled; PipelineTranscoder (stereo pairs) only through the monitor; StreamReversed over a truncated base not covered",
+    "contracts": ["smpl_extract.util.stream:StreamWrapper.read#cut", "smpl_extract.util.stream:StreamOffset.read#cut",
+                  "smpl_extract.util.sector:SectorStream._read#cut", "smpl_extract.util.fat:FileStream._read#cut", "smpl_extract.alcohol.mdf:MdfStream._read#cut",
+                  "smpl_extract.util.sector:SectorStream.read#cut", "smpl_extract.util.fat:FileStream.read#cut", "smpl_extract.alcohol.mdf:MdfStream.read#cut",
+                  "smpl_extract.transcoder:PassthroughTranscoder.__next__"],
+    "bounded": [("contracts.e2e_more", "e2e:C15")],
+    "trusted_base": ["pyvc VC generator", "z3 5.1.0 / cvc5 1.0.3", "independent writers under /verif/bounded"],
+    "not_covered": ["Roland and CDDA truncation sweeps", "header/table truncation handlers as contracts"],
+    "assumptions": ["K2 (known finding): a cut that removes one half of an L/R pair"],
+}
+
+SPECS["C01"] = {
+    "level": "proof",
+    "level_text": "proved links of the chain SAT words -> sector list -> logical bytes -> window -> WAV data: chain resolution exact for any table (get_path), link installation, decoder termination/no exception, sector-chained reads return exactly the listed sectors' bytes for any chain order and any length incl. exact sector fill (FileStream), file/window views (StreamWrapper/StreamOffset incl. empty windows), pass-through selection and block concatenation = the window's whole 2-byte frames. BOUNDED: decoder correctness (exhaustive <= 5/6 sectors) and the end-to-end statement on images from the independent AKAI writer (every chain ordering, exact-fill lengths, markers, rates, type bytes, both directory forms, several partitions/volumes/files, L/R pairs)",
+    "level_note": "trusted: pyvc engine, z3, ROF contract; the construct glue (Struct/Lazy/context plumbing, window arithmetic inside SampleHeaderConstruct, to_generalized, _encode) is covered by the bounded end-to-end monitor only; composition of the proved links is on paper",
+    "contracts": [FAT + "FileAllocationTable.get_path", FAT + "add_to_sector_links", "smpl_extract.akai.sat:SegmentAllocationTableAdapter._decode",
+                  FAT + "FileStream._read", FAT + "FileStream.read", "smpl_extract.util.stream:StreamWrapper.read", "smpl_extract.util.stream:StreamOffset.read",
+                  "smpl_extract.util.stream:StreamOffset.seek", "smpl_extract.transcoder:resize_buffer", "smpl_extract.transcoder:PassthroughTranscoder.__next__",
+                  "lemma:passthrough_concatenation[frame=2]", "smpl_extract.transcoder:make_transcoder[1]"],
+    "bounded": [("contracts.decoders", "bounded:akai_sat_decode"), ("contracts.e2e", "e2e:C01")],
+    "trusted_base": ["pyvc VC generator", "z3 5.1.0 / cvc5 1.0.3", "independent AKAI writer"],
+    "not_covered": ["SampleHeaderConstruct window arithmetic as a VC over the live declaration", "VolumesAdapter / FileEntriesAdapter / PartitionAdapter plumbing"],
+    "assumptions": [],
+}
+
+SPECS["C02"] = {
+    "level": "proof",
+    "level_text": "proved: chain resolution and link installation for any FAT, Roland decoder termination/no unhandled exception and version flags for any table length, cluster-chained reads (FileStream) for any chain order incl. exact cluster fill, offset windows and the sample-reversed view (width 2) as read-only files, pass-through concatenation. BOUNDED: decoder correctness (exhaustive small FATs) and the end-to-end statement on images from the independent Roland writer (7 loop modes, cluster-end windows, every 3-cluster permutation x cluster_top, 6 rates, FAT v1/v2, shared / orphaned / unreferenced entries)",
+    "level_note": "trusted: pyvc engine, z3, ROF contract, numpy flip/reshape contracts for the reversed view; record addressing lambdas, loop-mode window functions and the per-performance collection are covered by the bounded monitor only (not yet as contracts)",
+    "contracts": [FAT + "FileAllocationTable.get_path", FAT + "add_to_sector_links", "smpl_extract.roland.s7xx.fat:FatAreaAdapter._decode",
+                  FAT + "FileStream._read", FAT + "FileStream.read", "smpl_extract.util.stream:StreamOffset.read",
+                  "smpl_extract.util.stream:StreamReversed.read[w=2]", "smpl_extract.util.stream:StreamReversed.seek[w=2]",
+                  "lemma:passthrough_concatenation[frame=2]"],
+    "bounded": [("contracts.decoders", "bounded:roland_fat_decode"), ("contracts.e2e", "e2e:C02")],
+    "trusted_base": ["pyvc VC generator", "z3 5.1.0 / cvc5 1.0.3", "independent Roland writer"],
+    "not_covered": ["get_file / _get_*_params / to_generalized / SampleFileListAdapter as contracts"],
+    "assumptions": ["F13 (known finding): sample reachable through two patches of one performance"],
+}
+
+_NAMES_NOTE = "naming functions are regex-driven; their symbolic (string-theory) contracts are not built yet - see DESIGN.md"
+SPECS["C05"] = {
+    "level": "other",
+    "level_text": "BOUNDED end-to-end on AKAI volumes whose sibling names come from a near-collision pool (all pairs of 16 names, fixed multisets, 40/600 random multisets): every sample's PCM appears exactly once as a channel of some written file (nothing lost, nothing duplicated), channels add up to the number of samples, true L/R pairs share one file with L in channel 0 whatever the directory order, unpaired samples are mono; plus the Roland monitor (C02) for performances. Interleaving itself is proved/bounded under C12",
+    "level_note": "bounded stand-in; " + _NAMES_NOTE,
+    "explanation": _E2E_NOTE,
+    "contracts": [],
+    "bounded": [("contracts.e2e_names", "e2e:names"), ("contracts.e2e", "e2e:C02")],
+    "trusted_base": ["independent writers under /verif/bounded"],
+    "not_covered": ["combine_stereo_routine / combine_stereo as symbolic contracts"],
+    "assumptions": ["F13 (known finding) for Roland performances"],
+}
+SPECS["C06"] = {
+    "level": "other",
+    "level_text": "BOUNDED end-to-end: AKAI volumes with near-collision sibling names and CDDA cue sheets with hostile TITLEs ('..', separators, control characters, duplicates, blanks): files on disk == Exported lines, every path component matches the statement's safe-component grammar, nothing is written outside the destination (observable: destination two levels below the work directory)",
+    "level_note": "bounded stand-in; " + _NAMES_NOTE,
+    "explanation": _E2E_NOTE,
+    "contracts": [],
+    "bounded": [("contracts.e2e_names", "e2e:names"), ("contracts.e2e_names", "e2e:cdda_names")],
+    "trusted_base": ["independent writers under /verif/bounded"],
+    "not_covered": ["make_export_name / sanitize_names_general as symbolic contracts", "Roland names"],
+    "assumptions": [],
+}
+SPECS["C10"] = {
+    "level": "other",
+    "level_text": "BOUNDED end-to-end: printed sibling names pairwise distinct; every printed name resolves through two path spellings (/ and \\\\, surrounding blanks, trailing separator, lower case) to exactly that item (identified by a unique header value) and renders; junk paths incl. unicode print `was not found` without an exception; AKAI volumes and CDDA images",
+    "level_note": "bounded stand-in; " + _NAMES_NOTE,
+    "explanation": _E2E_NOTE,
+    "contracts": [],
+    "bounded": [("contracts.e2e_names", "e2e:names"), ("contracts.e2e_names", "e2e:cdda_names")],
+    "trusted_base": ["independent writers under /verif/bounded"],
+    "not_covered": ["parse_path tokenisation lemma as a string VC"],
+    "assumptions": [],
+}
